@@ -366,7 +366,38 @@ def check_data_case(case):
     return fails
 
 
+def exponent_sweep():
+    """a control mean that is small relative to its spread makes the exponent of the relative interval large; the sweep
+    walks it through the overflow point of exp (709.78...): below it the bound is finite, from there on +inf, never an
+    exception.  Statistics are given as Aggregates (|values| far below 1e100)."""
+    import scipy.stats as st
+    import tea_tasting as tt
+    import tea_tasting.aggr as A
+    fails = []
+    nc = nt = 50
+    vc, vt = 4.0, 1e-12
+    for alt, q in (("two-sided", 0.975), ("less", 0.95)):
+        z = st.norm.ppf(q)
+        for target in (600.0, 700.0, 709.0, 709.7, 709.78, 709.79, 709.9, 709.99, 710.0, 710.01, 711.0, 750.0, 5000.0):
+            mc = (vc / nc) ** 0.5 / (target / z)        # log-scale standard error * z  ~  target
+            c = A.Aggregates(count_=nc, mean_={"x": mc}, var_={"x": vc}, cov_={})
+            t = A.Aggregates(count_=nt, mean_={"x": 3.0}, var_={"x": vt}, cov_={})
+            try:
+                r = tt.Mean("x", alternative=alt, use_t=False, confidence_level=0.95).analyze_aggregates(c, t)
+            except Exception as e:  # noqa: BLE001
+                fails.append(f"relative-interval exponent ~{target}: analysis raised {type(e).__name__}: {e} "
+                             f"(control mean {mc!r}, variance {vc}, n {nc}, alternative {alt})")
+                continue
+            if r.rel_effect_size_ci_upper != r.rel_effect_size_ci_upper:
+                fails.append(f"relative-interval exponent ~{target}: upper bound is NaN")
+    return fails
+
+
 def oracle(ctx, deep=False):
+    ctx.evaluations += 1
+    ctx.count("oracle:exponent-sweep")
+    for f in exponent_sweep()[:3]:
+        ctx.violations.append({"what": "large exponent of the relative interval", "detail": f, "input": {"exponent_sweep": True}})
     for i in range(ctx.n(400, 8000) * (3 if deep else 1)):
         case = rand_data_case(ctx.rng)
         fails = check_data_case(case)
@@ -380,6 +411,9 @@ def oracle(ctx, deep=False):
 
 def replay(ctx, rp):
     inp = rp["input"]
+    if inp.get("exponent_sweep"):
+        fails = exponent_sweep()
+        return {"fails": bool(fails), "failures": fails}
     if inp.get("kind") == "aggregates":
         real = real_agg(inp)
         return {"fails": bool(real["raised"]), "failures": [real]}
